@@ -501,16 +501,17 @@ func runNLSegment(col *trace.Collector, rng *rand.Rand, steps int, idx int) *nlS
 // read channel or the session has ended; returns "" on success.
 func nlBarrier(col *trace.Collector, vn string, p *peer.Peer, timeout time.Duration) string {
 	from := col.Len()
+	label := fmt.Sprintf("%p", p.Pipe.A)
 	if err := p.SendRaw(peer.Marker); err != nil {
-		// the link is already cut: the session has ended
-		return ""
+		// the link is already cut: wait for the node's own end-of-session event (it may already be there)
+		from = 0
 	}
 	_, ok := col.WaitFor(from, timeout, func(r verifhook.Record) bool {
-		if r["n"] != vn {
+		if r["n"] != vn || r["sess"] != label {
 			return false
 		}
 		if r["ev"] == "sess_end" {
-			return true // conservative: some session of this node ended; re-checked by the caller through EOF
+			return true
 		}
 		if r["ev"] != "recv" {
 			return false
